@@ -67,6 +67,7 @@ class LoopSpec:
         self.at_entry = at_entry
         self.name = name or label
         self.cur = None
+        self.last_elem = None
         self.mode = None
         self.getters = None
         self.idx = None
@@ -162,6 +163,7 @@ class LoopSpec:
             c.pc.extend(self.inv(hv, hi))
             self.idx = hi
             self.mode = "exhausted"
+            self.last_elem = sym.ite(hi.e > lo.e, hi - 1, lo) if not isinstance(it, SymArray) else None
             return
 
     def havoc_values(self):
@@ -173,8 +175,13 @@ class LoopSpec:
             vals.append(v)
         return tuple(vals)
 
-    def exit_values(self):
-        if self.mode == "exhausted":
-            return self.havoc_values()
+    def exit_values(self, targets=()):
         cur = self.read(self.getters)
-        return tuple((None if cur[k] is UNBOUND else cur[k]) for k in self.order)
+        if self.mode == "exhausted":
+            # python leaves the loop variable at its last value (if the loop ran at all; otherwise its previous binding)
+            tv = []
+            for t in targets:
+                last = self.last_elem
+                tv.append(last if last is not None else (None if cur.get(t, UNBOUND) is UNBOUND else cur[t]))
+            return self.havoc_values() + tuple(tv)
+        return tuple((None if cur[k] is UNBOUND else cur[k]) for k in self.order) + tuple((None if cur.get(t, UNBOUND) is UNBOUND else cur[t]) for t in targets)
